@@ -1081,8 +1081,9 @@ protected:         // More utilities
         result.constant_term(
               er.constant_term() * el.constant_term());
       }
-      result.GetQPTerms().add(er.GetQPTerms());
-      result.GetQPTerms() *= el.constant_term();
+      auto qp2 = er.GetQPTerms();      // scale er's terms only
+      qp2 *= el.constant_term();
+      result.GetQPTerms().add(qp2);
     }
     const auto& ae1 = el.GetLinTerms();
     const auto& ae2 = er.GetLinTerms();
